@@ -387,3 +387,46 @@ Proof.
     pose proof (name_no_first _ name In0 Hname) as Hf. destruct Hname as [_ Hn]. apply Hn in Hz. vm_compute in Hz. discriminate. }
   rewrite H2. reflexivity.
 Qed.
+
+(* ---- an undefined macro: left as written, with exactly one diagnostic (C11, C19) ---- *)
+Theorem undefined_invocation sr s pre name post :
+  quiet pre -> quiet post -> name_ok name -> getValue s name = None ->
+  let text := pre ++ 123 :: name ++ 125 :: post in
+  macros_render sr s text false =
+  Ok (text, [$"undefined macro: " ++ (123 :: name ++ [125]) ++ $": " ++ pre ++ (123 :: name ++ [125]) ++ post]).
+Proof.
+  intros Hpre Hpost Hname Hget text. unfold text. unfold macros_render.
+  assert (N1 : nullable (re_ast re_macros_render_1) = false) by (vm_compute; reflexivity).
+  assert (N0 : nullable (re_ast re_macros_render_0) = false) by (vm_compute; reflexivity).
+  assert (In1 : In re_macros_render_1 macro_regexes) by (right; left; reflexivity).
+  assert (In0 : In re_macros_render_0 macro_regexes) by (left; reflexivity).
+  destruct (simple_match (lenN pre) (last_of None pre) name post Hname) as (m & Hm & Hst & Hen & Hg).
+  assert (Et : pre ++ 123 :: name ++ 125 :: post = pre ++ (123 :: name ++ [125]) ++ post)
+    by (cbn; rewrite <- app_assoc; reflexivity).
+  rewrite Et. unfold isub.
+  assert (Hscan : re_scan re_macros_render_1 (pre ++ (123 :: name ++ [125]) ++ post) = ([(pre, m)], post)).
+  { apply re_scan_one; [exact N1|exact (quiet_first _ _ In1 Hpre)|exact (quiet_first _ _ In1 Hpost)| |exact Hst|exact Hen|discriminate].
+    cbn [app]. rewrite <- app_assoc. exact Hm. }
+  assert (Hrepl : macro_repl sr s (pre ++ (123 :: name ++ [125]) ++ post) false true m =
+                  Ok (123 :: name ++ [125], [$"undefined macro: " ++ (123 :: name ++ [125]) ++ $": " ++ pre ++ (123 :: name ++ [125]) ++ post])).
+  { unfold macro_repl, grp0, grp_s, grp. rewrite Hg. cbn [nth starts_with N.eqb Pos.eqb andb]. rewrite Hget. reflexivity. }
+  assert (Hscan0 : re_scan re_macros_render_0 (pre ++ 123 :: name ++ 125 :: post) = ([], pre ++ 123 :: name ++ 125 :: post)).
+  { assert (Hh : search_from re_macros_render_0 0 None (pre ++ 123 :: name ++ 125 :: post) = None);
+      [|unfold re_scan; cbn [scan_loop]; unfold str, char in *; rewrite Hh; reflexivity].
+    apply (search_from_hole re_macros_render_0 N0 pre 0 None 123 (name ++ 125 :: post)).
+    - exact (quiet_first _ _ In0 Hpre).
+    - apply complex_no_match. exact Hname.
+    - intros y Hy. apply in_app_or in Hy as [Hy|[<-|Hy]].
+      + eapply name_no_first; eauto.
+      + destruct (first (re_ast re_macros_render_0) 125) eqn:E5; [|reflexivity]. apply (macro_first _ _ In0) in E5. lia.
+      + exact (quiet_first _ _ In0 Hpost y Hy). }
+  unfold str, char in *. rewrite Hscan. cbn [imapM snd fst]. rewrite Hrepl. cbn [ibind iret concat app]. rewrite app_nil_r.
+  rewrite <- app_assoc. cbn [app]. rewrite <- app_assoc. cbn [app].
+  rewrite Hscan0. cbn [imapM ibind iret concat app].
+  assert (H2 : existsb (N.eqb 2) (pre ++ 123 :: name ++ 125 :: post) = false).
+  { rewrite existsb_app. apply orb_false_iff. split; [apply Hpre|]. cbn [existsb]. apply orb_false_iff. split; [reflexivity|].
+    rewrite existsb_app. apply orb_false_iff. split; [|cbn [existsb]; apply orb_false_iff; split; [reflexivity|apply Hpost]].
+    destruct (existsb (N.eqb 2) name) eqn:E2; [|reflexivity]. apply existsb_exists in E2 as (z & Hz & Ez). apply N.eqb_eq in Ez. subst z.
+    destruct Hname as [_ Hn]. apply Hn in Hz. vm_compute in Hz. discriminate. }
+  rewrite H2. cbn [ibind iret app]. rewrite ?app_nil_r. reflexivity.
+Qed.
